@@ -85,6 +85,10 @@ theorem extOK_of_B {S : Schema} {xr : Nat → Bool} (h : extOKB S xr = true) : E
 
 /-! ### typing of values: a message value sits in a message-valued field -/
 
+def isMsgVal : Val → Bool
+  | .msg _ => true
+  | _ => false
+
 mutual
 def tyMsg (S : Schema) (mi : Nat) : Msg → Bool
   | .mk fs _ => tyFields S (S.msg mi) fs
@@ -95,7 +99,7 @@ def tyFields (S : Schema) (d : MsgD) : Fields → Bool
      | some f => tyFVal S f fv
      | none => true) && tyFields S d tl
 def tyFVal (S : Schema) (f : Field) : FVal → Bool
-  | .one v => decide (f.card ≠ .map) && tyVal S f v
+  | .one v => (decide (f.card ≠ .map) || !isMsgVal v) && tyVal S f v
   | .many vs => tyVals S f vs
 def tyVal (S : Schema) (f : Field) : Val → Bool
   | .msg m => isSubField f && tyMsg S f.sub m
@@ -295,15 +299,17 @@ theorem fast_fields : ∀ (fs : Fields) (mi : Nat), tyFields S (S.msg mi) fs = t
     | none => rfl
 theorem fast_fval : ∀ (fv : FVal) (f : Field) (mi : Nat), f ∈ (S.msg mi).fields → tyFVal S f fv = true →
     initFastFVal S nd f fv = initFVal S f fv
-  | .one v, f, mi, hf, ht => by
+  | .one (.msg x), f, mi, hf, ht => by
     have ht' := ht
     rw [tyFVal, Bool.and_eq_true] at ht'
-    have hc : f.card ≠ .map := by simpa using ht'.1
+    have hc : f.card ≠ .map := by simpa [isMsgVal] using ht'.1
     rw [initFastFVal]
     split
-    · rw [initFVal]; exact fast_val v f ht'.2
+    · rw [initFVal]; exact fast_val (.msg x) f ht'.2
     · rename_i h
       exact (quiet_fval S xr _ f (pruned_quiet S xr nd hM hX hnd hc (by simpa using h)) ht).symm
+  | .one (.num _), f, mi, hf, ht => by simp [initFastFVal, initFastVal, initFVal, initVal]
+  | .one (.bytes _), f, mi, hf, ht => by simp [initFastFVal, initFastVal, initFVal, initVal]
   | .many vs, f, mi, hf, ht => by
     have ht' := ht
     rw [tyFVal] at ht'
